@@ -63,9 +63,35 @@ def removal_closure_3(d01: bool, d02: bool, d10: bool, d12: bool, d20: bool, d21
     return _check(3, dep, [f0, f1, f2])
 
 
-def removal_closure_4_thorough(d01: bool, d02: bool, d03: bool, d10: bool, d12: bool, d13: bool, d20: bool, d21: bool, d23: bool, d30: bool, d31: bool, d32: bool, f0: bool, f1: bool) -> bool:
+def _closure4(d01, d02, d03, d10, d12, d13, d20, d21, d23, d30, d31, d32, f0, f1) -> bool:
+    dep = [[False, d01, d02, d03], [d10, False, d12, d13], [d20, d21, False, d23], [d30, d31, d32, False]]
+    return _check(4, dep, [f0, f1, False, False])
+
+
+# all 4-node graphs: 2^12 edge sets x 4 failing subsets, split by the first two edges into four conditions of 4096 paths
+def removal_closure_4a_thorough(d03: bool, d10: bool, d12: bool, d13: bool, d20: bool, d21: bool, d23: bool, d30: bool, d31: bool, d32: bool, f0: bool, f1: bool) -> bool:
     """
     post: _
     """
-    dep = [[False, d01, d02, d03], [d10, False, d12, d13], [d20, d21, False, d23], [d30, d31, d32, False]]
-    return _check(4, dep, [f0, f1, False, False])
+    return _closure4(False, False, d03, d10, d12, d13, d20, d21, d23, d30, d31, d32, f0, f1)
+
+
+def removal_closure_4b_thorough(d03: bool, d10: bool, d12: bool, d13: bool, d20: bool, d21: bool, d23: bool, d30: bool, d31: bool, d32: bool, f0: bool, f1: bool) -> bool:
+    """
+    post: _
+    """
+    return _closure4(False, True, d03, d10, d12, d13, d20, d21, d23, d30, d31, d32, f0, f1)
+
+
+def removal_closure_4c_thorough(d03: bool, d10: bool, d12: bool, d13: bool, d20: bool, d21: bool, d23: bool, d30: bool, d31: bool, d32: bool, f0: bool, f1: bool) -> bool:
+    """
+    post: _
+    """
+    return _closure4(True, False, d03, d10, d12, d13, d20, d21, d23, d30, d31, d32, f0, f1)
+
+
+def removal_closure_4d_thorough(d03: bool, d10: bool, d12: bool, d13: bool, d20: bool, d21: bool, d23: bool, d30: bool, d31: bool, d32: bool, f0: bool, f1: bool) -> bool:
+    """
+    post: _
+    """
+    return _closure4(True, True, d03, d10, d12, d13, d20, d21, d23, d30, d31, d32, f0, f1)
